@@ -25,7 +25,8 @@ RULE = ("Generated scenarios (Hypothesis; exhaustive product for n<=2 files in t
         "untouched}, an initial state {existing, absent: the outside change then CREATES it} and an outside "
         "change {before its first buffered access, after it, never}; access "
         "order, position of the 'after' change and exit order are generated; a file may have a SECOND "
-        "object bound to it that only reads (so two collections are registered for one buffer entry). The outside writer always "
+        "object bound to it that only reads (so two collections are registered for one buffer entry); a "
+        "file that was only read before a forced flush may be modified after it. The outside writer always "
         "changes (size, mtime_ns). Oracle: conflict set = modified AND changed-after; a per-object "
         "exit raises MetadataError exactly for conflicting files; the backend-wide exit (or the "
         "forcing call) raises BufferedError whose .files are exactly the conflict set and nothing if it "
@@ -211,6 +212,7 @@ def run_case(case):
                 raise Mismatch("forced_flush_raised_metadata_error", error=str(e))
             finally:
                 cls.set_buffer_capacity(cap0)   # undo *our* explicit capacity change
+            did_force = err is not None or cls.get_current_buffer_size() == 0
             if err is not None:
                 if not conflict:
                     raise Mismatch("spurious_buffered_error", where="forced flush",
@@ -222,6 +224,34 @@ def run_case(case):
                 conflict_paths = set()
             # err is None with conflicts pending = no flush was forced (nothing over capacity):
             # the exit below must then report them.
+            # ---- modifications made AFTER the forced flush, still inside the context
+            for i in range(n):
+                f = files[i]
+                if not f.get("modify_after_force") or i in conflict_done or f["role"] != "readonly":
+                    continue
+                # the file entered the buffer by a read; if it was changed outside after that, a
+                # write now must make the exit report it (the forced flush wrote nothing for it)
+                # serialized strategy: both forcing kinds always overflow here (set capacity 0 with
+                # buffered files / capacity == current size followed by a growing write), and an
+                # overflow drops every entry
+                evicted = ci.buffered == "serialized"
+                if evicted and f["change"] == "after":
+                    # the serialized strategy drops every entry in a forced flush: the file re-enters
+                    # the buffer now, with the outside writer's content - no conflict
+                    model[i] = copy.deepcopy(disk[i])
+                model[i] = _mutated(model[i], kind, 2000 + i)
+                try:
+                    _mutate(objs[i], kind, 2000 + i)
+                except BufferedError:
+                    pass
+                files = [dict(x) for x in files]
+                files[i]["role"] = "modified"
+                stats_ro.pop(i, None)
+                if f["change"] == "after" and not evicted:
+                    # shared-memory strategy (entries survive a forced flush) or no flush was forced:
+                    # the buffered copy predates the outside change and is modified now
+                    conflict.add(i)
+                    conflict_paths.add(os.path.realpath(res[i].path))
         # ---- exit
         raised = {}
         if ctxk == "obj":
@@ -329,7 +359,7 @@ def _nt(case):
 def _vector(case):
     return (case["class"], case["ctx"], tuple((f["role"], f["change"], f.get("rank", 0), f.get("xrank", 0),
                                                 bool(f.get("late")), bool(f.get("read_first")), bool(f.get("absent")),
-                                                bool(f.get("twin")))
+                                                bool(f.get("twin")), bool(f.get("modify_after_force")))
                                                for f in case["files"]), case.get("trigger", 0), case.get("outer_cap"))
 
 
@@ -346,6 +376,7 @@ def _draw_case(draw, cname):
             "read_first": draw(st.booleans()),
             "absent": draw(st.integers(0, 3)) == 0,
             "twin": draw(st.integers(0, 3)) == 0,
+            "modify_after_force": draw(st.integers(0, 2)) == 0,
         })
     return {"property": ID, "engine": "c07", "class": cname, "ctx": draw(st.sampled_from(CTX)),
             "files": files, "trigger": draw(st.integers(0, 3)), "cap": draw(st.sampled_from([10**9, 10**6])),
